@@ -263,10 +263,18 @@ func run(e *core.Env) {
 		for k := 0; k < 12; k++ {
 			nh := 2 + tp.Intn(100)
 			bias := tp.Intn(4) // 0 mixed, 1 mostly 1-byte, 2 mostly 2-byte, 3 mostly 3-byte
+			if tp.Chance(1, 4) {
+				// Validity is a matter of label bytes, not of hops: with one-byte labels up to
+				// 256 hops fit into 255 bytes. Hop counts beyond what gossip carries, with
+				// weight on the powers of two and on the last count that fits.
+				nh = []int{102 + tp.Intn(155), 127 + tp.Intn(4), 254 + tp.Intn(4), 128, 129, 256}[tp.Intn(6)]
+				bias = 1
+				e.Probe("path_longer_than_gossip_carries")
+			}
 			fw := make([]m.SwitchLabel, nh-1)
 			ret := make([]m.SwitchLabel, nh-1)
 			pick := func() m.SwitchLabel {
-				if bias > 0 && tp.Chance(4, 5) {
+				if bias > 0 && (tp.Chance(4, 5) || nh > 101 && tp.Chance(19, 20)) {
 					c := classReps[bias-1]
 					return c[0] + m.SwitchLabel(tp.Intn(int(c[1]-c[0])+1))
 				}
